@@ -26,213 +26,6 @@ import (
 	"golang.org/x/tools/go/ssa"
 )
 
-func addSubtraceRule(w *World, r *Report, rule string) {
-	p := w.Pkgs[forkPath(pkNative)]
-	if p == nil {
-		r.undecided(rule, "tracers/native", "-", "package not loaded")
-		return
-	}
-	info := p.TypesInfo
-	// flattening functions: those that assign <x>.Subtraces
-	isFlatten := map[types.Object]bool{}
-	type site struct {
-		fd  *ast.FuncDecl
-		as  *ast.AssignStmt
-	}
-	var sites []site
-	for _, f := range p.Syntax {
-		for _, d := range f.Decls {
-			fd, ok := d.(*ast.FuncDecl)
-			if !ok || fd.Body == nil {
-				continue
-			}
-			ast.Inspect(fd.Body, func(n ast.Node) bool {
-				as, ok := n.(*ast.AssignStmt)
-				if !ok || len(as.Lhs) != 1 || len(as.Rhs) != 1 {
-					return true
-				}
-				if sel, ok := as.Lhs[0].(*ast.SelectorExpr); ok && sel.Sel.Name == "Subtraces" {
-					if _, isField := info.Uses[sel.Sel].(*types.Var); isField {
-						sites = append(sites, site{fd, as})
-						isFlatten[info.Defs[fd.Name]] = true
-					}
-				}
-				return true
-			})
-		}
-	}
-	c := &astCanon{info: info}
-	for _, s := range sites {
-		key := "tracers/native." + declRelName(s.fd)
-		var bad []string
-		// terms of the sum
-		var terms []string
-		var walk func(e ast.Expr) bool
-		walk = func(e ast.Expr) bool {
-			switch x := ast.Unparen(e).(type) {
-			case *ast.BinaryExpr:
-				if x.Op != token.ADD {
-					return false
-				}
-				return walk(x.X) && walk(x.Y)
-			case *ast.CallExpr:
-				if id, ok := x.Fun.(*ast.Ident); ok && id.Name == "len" && len(x.Args) == 1 {
-					if _, isBuiltin := info.Uses[id].(*types.Builtin); isBuiltin {
-						terms = append(terms, c.expr(x.Args[0]))
-						return true
-					}
-				}
-			}
-			return false
-		}
-		if !walk(s.as.Rhs[0]) {
-			bad = append(bad, "the sub-trace count is not a sum of len(<collection>) terms: "+c.expr(s.as.Rhs[0]))
-		}
-		// emitting loops
-		type loop struct {
-			coll  string
-			guard string // "" = unconditional, otherwise the canonical skip condition
-			ok    bool
-			pos   token.Pos
-			keyVar, valVar string
-		}
-		var loops []loop
-		ast.Inspect(s.fd.Body, func(n ast.Node) bool {
-			rs, ok := n.(*ast.RangeStmt)
-			if !ok {
-				return true
-			}
-			emits := false
-			ast.Inspect(rs.Body, func(m ast.Node) bool {
-				if call, ok := m.(*ast.CallExpr); ok {
-					if id, ok := call.Fun.(*ast.Ident); ok && isFlatten[info.Uses[id]] {
-						emits = true
-					}
-				}
-				return true
-			})
-			if !emits {
-				return true
-			}
-			lp := loop{coll: c.expr(rs.X), ok: true, pos: rs.Pos()}
-			if id, ok := rs.Key.(*ast.Ident); ok {
-				lp.keyVar = id.Name
-			}
-			if id, ok := rs.Value.(*ast.Ident); ok {
-				lp.valVar = id.Name
-			} else if len(rs.Body.List) > 0 {
-				// `for i := range coll { v := coll[i]; … }`: v plays the role of the value variable
-				if as, ok := rs.Body.List[0].(*ast.AssignStmt); ok && as.Tok == token.DEFINE && len(as.Lhs) == 1 && len(as.Rhs) == 1 {
-					if ix, ok := ast.Unparen(as.Rhs[0]).(*ast.IndexExpr); ok && c.expr(ix.X) == lp.coll {
-						if kid, ok := ast.Unparen(ix.Index).(*ast.Ident); ok && kid.Name == lp.keyVar {
-							if lid, ok := as.Lhs[0].(*ast.Ident); ok {
-								lp.valVar = lid.Name
-							}
-						}
-					}
-				}
-			}
-			// statements before the emission: at most one `if cond { continue }`
-			for _, st := range rs.Body.List {
-				hasEmit := false
-				ast.Inspect(st, func(m ast.Node) bool {
-					if call, ok := m.(*ast.CallExpr); ok {
-						if id, ok := call.Fun.(*ast.Ident); ok && isFlatten[info.Uses[id]] {
-							hasEmit = true
-						}
-					}
-					return true
-				})
-				if hasEmit {
-					break
-				}
-				if ifs, ok := st.(*ast.IfStmt); ok {
-					skips := false
-					ast.Inspect(ifs.Body, func(m ast.Node) bool {
-						if b, ok := m.(*ast.BranchStmt); ok && (b.Tok == token.CONTINUE || b.Tok == token.BREAK) {
-							skips = true
-						}
-						if _, ok := m.(*ast.ReturnStmt); ok {
-							skips = true
-						}
-						return true
-					})
-					if skips {
-						if lp.guard != "" || ifs.Init != nil || ifs.Else != nil || len(ifs.Body.List) != 1 {
-							lp.ok = false
-						}
-						if b, isB := ifs.Body.List[0].(*ast.BranchStmt); !isB || b.Tok != token.CONTINUE {
-							lp.ok = false
-						}
-						lp.guard = c.expr(ifs.Cond)
-					}
-				}
-			}
-			loops = append(loops, lp)
-			return true
-		})
-		byColl := map[string][]loop{}
-		for _, lp := range loops {
-			byColl[lp.coll] = append(byColl[lp.coll], lp)
-		}
-		var colls []string
-		for k := range byColl {
-			colls = append(colls, k)
-		}
-		sort.Strings(colls)
-		sort.Strings(terms)
-		if strings.Join(colls, ",") != strings.Join(dedup(terms), ",") || len(dedup(terms)) != len(terms) {
-			bad = append(bad, fmt.Sprintf("collections counted in Subtraces {%s} differ from the collections emitted recursively {%s}", strings.Join(terms, ", "), strings.Join(colls, ", ")))
-		}
-		// the guards are written over the loop's own element variable; compare modulo that name
-		norm := func(g string, lp loop) string {
-			repl := func(g, name, with string) string {
-				if name == "" || name == "_" {
-					return g
-				}
-				var sb strings.Builder
-				for i := 0; i < len(g); {
-					if strings.HasPrefix(g[i:], name) && (i == 0 || !isIdentChar(g[i-1])) && (i+len(name) == len(g) || !isIdentChar(g[i+len(name)])) {
-						sb.WriteString(with)
-						i += len(name)
-						continue
-					}
-					sb.WriteByte(g[i])
-					i++
-				}
-				return sb.String()
-			}
-			return repl(repl(g, lp.valVar, "$v"), lp.keyVar, "$k")
-		}
-		for _, k := range colls {
-			ls := byColl[k]
-			switch len(ls) {
-			case 1:
-				if ls[0].guard != "" || !ls[0].ok {
-					bad = append(bad, "elements of "+k+" are emitted only under a condition ("+ls[0].guard+") but all of them are counted")
-				}
-			case 2:
-				g0, g1 := norm(ls[0].guard, ls[0]), norm(ls[1].guard, ls[1])
-				compl := g0 != "" && g1 != "" && (g0 == "!"+g1 || g1 == "!"+g0 || g0 == "!("+g1+")" || g1 == "!("+g0+")")
-				if !compl || !ls[0].ok || !ls[1].ok {
-					bad = append(bad, fmt.Sprintf("%s is emitted by two loops whose skip conditions `%s` and `%s` are not complementary: an element may be emitted twice or not at all", k, ls[0].guard, ls[1].guard))
-				}
-			default:
-				bad = append(bad, fmt.Sprintf("%s is emitted by %d loops", k, len(ls)))
-			}
-		}
-		if len(bad) > 0 {
-			r.violated(rule, key, w.pos(s.as.Pos()), strings.Join(bad, "; "))
-		} else {
-			r.holds(rule, key, w.pos(s.as.Pos()), fmt.Sprintf("Subtraces = sum of len over {%s}; each of these collections is emitted element by element exactly once (%d emitting loops)", strings.Join(terms, ", "), len(loops)))
-		}
-	}
-	if len(sites) < 2 {
-		r.violated(rule, "instance-count", "-", fmt.Sprintf("expected at least 2 flattening functions assigning Subtraces, found %d: the rule's anchors no longer resolve", len(sites)))
-	}
-	r.need(rule, 2)
-}
-
 // flattenDecls: the functions of tracers/native that assign a frame's Subtraces (the flattening functions).
 func flattenDecls(w *World) []*ast.FuncDecl {
 	p := w.Pkgs[forkPath(pkNative)]
@@ -240,22 +33,20 @@ func flattenDecls(w *World) []*ast.FuncDecl {
 	if p == nil {
 		return nil
 	}
+	isFl := map[string]bool{}
+	fns, _ := flattenFuncs(w)
+	for _, fn := range fns {
+		if fn.Signature.Recv() == nil {
+			isFl[fn.Name()] = true
+		}
+	}
 	for _, f := range p.Syntax {
 		for _, d := range f.Decls {
 			fd, ok := d.(*ast.FuncDecl)
 			if !ok || fd.Body == nil {
 				continue
 			}
-			hit := false
-			ast.Inspect(fd.Body, func(n ast.Node) bool {
-				if as, ok := n.(*ast.AssignStmt); ok && len(as.Lhs) == 1 {
-					if sel, ok := as.Lhs[0].(*ast.SelectorExpr); ok && sel.Sel.Name == "Subtraces" {
-						hit = true
-					}
-				}
-				return true
-			})
-			if hit {
+			if fd.Recv == nil && isFl[fd.Name.Name] {
 				out = append(out, fd)
 			}
 		}
@@ -350,7 +141,8 @@ func addLoopVarAddressRule(w *World, r *Report, rule string) {
 // under a guard, and the guards must be the same condition over the function's own input (the record
 // being flattened) — in particular not over the frame being built, whose Error field has by then been
 // rewritten by the optional parity conversion.
-func addSiblingGuardRule(w *World, r *Report, rule string) {
+// (superseded by the SSA form in c19guard.go and no longer called)
+func addSiblingGuardRuleAST(w *World, r *Report, rule string) {
 	p := w.Pkgs[forkPath(pkNative)]
 	info := p.TypesInfo
 	c := &astCanon{info: info}
